@@ -203,6 +203,8 @@ def visibility_cases():
 
 
 IMPORTERS = ("main", "dep_chain", "dep_diamond_mid_first", "dep_diamond_lib_first")
+# names of the library module: plain, and names that begin with (but are not) a root the resolvers treat specially
+MODULE_NAMES = ("lib", "stdio", "std_utils", "stdx", "crates", "superb", "rusty", "testing_tools", "webs", "mathx", "selfish")
 
 
 def run_visibility(out):
@@ -220,15 +222,21 @@ def run_visibility(out):
             for importer in IMPORTERS:
                 if importer != "main" and (collide or form not in ("from_import", "import_item")):
                     continue
-                jobs.append((kind, form, libpath, decl, main, collide, importer))
+                jobs.append((kind, form, libpath, decl, main, collide, importer, "lib"))
+        if form in ("from_import", "import_item", "from_nested"):
+            for mod in MODULE_NAMES[1:]:
+                jobs.append((kind, form, libpath, decl, main, False, "main", mod))
 
     def run_one(job):
-        kind, form, libpath, decl, main, collide, importer = job
+        kind, form, libpath, decl, main, collide, importer, mod = job
+        if mod != "lib":
+            libpath = libpath.replace("lib.incn", mod + ".incn")
+            main = main.replace("from lib import", f"from {mod} import").replace("from pkg.lib import", f"from pkg.{mod} import").replace("import lib::", f"import {mod}::")
         res = {}
         main_text = ("from other import unrelated\n" + main) if collide else main
         files_for = {}
         for vis in ("private", "pub"):
-            d = os.path.join(base, f"{kind}_{form}_{vis}_{int(collide)}_{importer}")
+            d = os.path.join(base, f"{kind}_{form}_{vis}_{int(collide)}_{importer}_{mod}")
             shutil.rmtree(d, ignore_errors=True)
             os.makedirs(os.path.dirname(os.path.join(d, libpath)), exist_ok=True)
             text = ("pub " + decl if vis == "pub" else decl) + "\n\npub def other() -> int:\n    return 0\n"
@@ -248,24 +256,24 @@ def run_visibility(out):
             p = subprocess.run([common.INCAN, "--no-banner", "--color", "never", "--check", "main.incn"], cwd=d, capture_output=True, text=True, timeout=60, env=env)
             res[vis] = (p.returncode, (p.stdout + p.stderr)[-400:])
             files_for[vis] = files
-        return job, res, files_for["private"]
+        return job[:7] + (mod,), res, files_for["private"]
 
     from multiprocessing.pool import ThreadPool
 
     with ThreadPool(common.NCPU) as pool:
         results = pool.map(run_one, jobs)
-    for (kind, form, libpath, decl, main, collide, importer), res, files in results:
+    for (kind, form, libpath, decl, main, collide, importer, mod), res, files in results:
         n += 2
         if res["pub"][0] != 0:
             continue  # the twin does not check on this tree: position unusable
-        tag = f"kind:{kind}|form:{form}" + ("|same-name-pub-in-another-module" if collide else "") + (f"|importer:{importer}" if importer != "main" else "")
+        tag = f"kind:{kind}|form:{form}" + ("|same-name-pub-in-another-module" if collide else "") + (f"|importer:{importer}" if importer != "main" else "") + (f"|module-name:{mod}" if mod != "lib" else "")
         case = {"kind": kind, "form": form, "lib": decl, "main": files.get("main.incn"), "files": files, "other_module_declares_pub_item_of_same_name": collide, "importer": importer}
         if res["private"][0] == 0:
             out.fail(f"private-item-usable|{tag}", {**case, "check_output": res["private"][1]})
         elif res["private"][0] != 1:
             out.fail(f"check-abnormal-exit|{tag}", {**case, "exit": res["private"][0], "output": res["private"][1]})
         else:
-            ok.add(("visibility", kind, form, collide, importer))
+            ok.add(("visibility", kind, form, collide, importer, mod))
     # private items named like builtins (the symbol table already holds a public definition of that name)
     for name, decl, use in [("len", "def len(x: int) -> int:\n    return x\n", "println(len(3))"), ("Option", "def Option(x: int) -> int:\n    return x\n", "println(Option(3))"),
                             ("print", "def print(x: int) -> int:\n    return x\n", "println(print(3))"), ("range", "def range(x: int) -> int:\n    return x\n", "println(range(3))")]:
